@@ -2229,6 +2229,100 @@ def strip_annotations(func_node):
     return count[0]
 
 
+_DISJOINT = {"str", "bytes", "int", "float", "list", "dict", "tuple", "set"}
+
+
+def fold_declared_types(func_node):
+    """`isinstance(p, T)` on a parameter declared `p: T0` (T0 a builtin type, p never rebound in the function) is decided by the
+    declaration: True when T0 is (one of) T, False when T names other builtin types only.  The branch that cannot be taken under the
+    function's own contract is removed (type-coercion helpers copied into a typed caller: `to_bytes(content)` with `content: str` is
+    `content.encode(..)`).  ASSUMPTION (stated in the evidence): callers pass values of the declared builtin type.
+    Returns the number of decided tests."""
+    decl = {}
+    a = func_node.args
+    for x in a.posonlyargs + a.args + a.kwonlyargs:
+        if isinstance(x.annotation, ast.Name) and x.annotation.id in _DISJOINT:
+            decl[x.arg] = x.annotation.id
+    if not decl:
+        return 0
+    for n in _walk_no_defs(func_node):
+        if isinstance(n, ast.Name) and n.id in decl and not isinstance(n.ctx, ast.Load):
+            decl.pop(n.id, None)
+    for n in ast.walk(func_node):
+        if n is not func_node and isinstance(n, (ast.FunctionDef, ast.AsyncFunctionDef, ast.Lambda)):
+            for x in ast.walk(n):
+                if isinstance(x, ast.arg):
+                    decl.pop(x.arg, None)
+    if not decl:
+        return 0
+    count = [0]
+
+    def verdict(c):
+        if not (isinstance(c, ast.Call) and isinstance(c.func, ast.Name) and c.func.id == "isinstance" and len(c.args) == 2 and not c.keywords
+                and isinstance(c.args[0], ast.Name) and c.args[0].id in decl):
+            return None
+        t = c.args[1]
+        names = [t] if isinstance(t, ast.Name) else list(t.elts) if isinstance(t, ast.Tuple) else None
+        if names is None or not all(isinstance(x, ast.Name) and x.id in _DISJOINT for x in names):
+            return None
+        return decl[c.args[0].id] in {x.id for x in names}
+
+    class T(ast.NodeTransformer):
+        def visit_Call(self, c):
+            self.generic_visit(c)
+            v = verdict(c)
+            if v is None:
+                return c
+            count[0] += 1
+            return ast.copy_location(ast.Constant(value=v), c)
+    T().visit(func_node)
+    if count[0]:
+        relink(func_node, getattr(func_node, "_parent", None))
+        prune_decided(func_node)
+    return count[0]
+
+
+def prune_decided(func_node):
+    """`if True: A else: B` -> A, `if False: A else: B` -> B, `not <const>` folded; statements after a return / raise / leave in the
+    same list are dropped."""
+    def const_test(t):
+        if isinstance(t, ast.Constant) and isinstance(t.value, bool):
+            return t.value
+        if isinstance(t, ast.UnaryOp) and isinstance(t.op, ast.Not):
+            v = const_test(t.operand)
+            return None if v is None else not v
+        return None
+
+    def block(stmts):
+        out = []
+        for st in stmts:
+            if isinstance(st, (ast.FunctionDef, ast.AsyncFunctionDef, ast.ClassDef)):
+                out.append(st)
+                continue
+            for owner, fld, lst in _stmt_lists(st):
+                setattr(owner, fld, block(lst) or ([ast.copy_location(ast.Pass(), st)] if fld == "body" else []))
+            if isinstance(st, ast.If):
+                v = const_test(st.test)
+                if v is not None:
+                    out.extend(st.body if v else st.orelse)
+                    if out and isinstance(out[-1], (ast.Return, ast.Raise, InlineLeave, ast.Break, ast.Continue)):
+                        break
+                    continue
+            out.append(st)
+            if isinstance(st, (ast.Return, ast.Raise, InlineLeave, ast.Break, ast.Continue)):
+                break
+        return out
+
+    class E(ast.NodeTransformer):
+        def visit_IfExp(self, e):
+            self.generic_visit(e)
+            v = const_test(e.test)
+            return e if v is None else (e.body if v else e.orelse)
+    E().visit(func_node)
+    func_node.body = block(func_node.body) or [ast.copy_location(ast.Pass(), func_node)]
+    relink(func_node, getattr(func_node, "_parent", None))
+
+
 def drop_logging(func_node, loggers):
     """Statements `logger.debug(...)` / `.info` / `.warning` ... on a module-level logging.getLogger() object whose arguments only
     read (names, attributes, constants, pure conversions) are dropped: what they print is no part of any property, and they cannot
